@@ -61,7 +61,9 @@ def run(tier, seed):
         quick_num=12 if len(THEMES) > 1 else 24, thorough_num=250,
         assumptions=kc.COMMON_ASSUMPTIONS, rule=RULE, needed_events=NEEDED,
         mc_cfgs=(['MC_Krill_q_roll.cfg', 'MC_Krill_q_life.cfg'] if tier == "quick" else ['MC_Krill_q_roll.cfg', 'MC_Krill_q_life.cfg', 'MC_Krill_roll.cfg', 'MC_Krill_life.cfg']),
-        directed=DIRECTED + kc.MULTI_DIRECTED,
+        directed=(DIRECTED + kc.MULTI_DIRECTED
+                  + kc.clause("child-removed-suspended-deleted",
+                              "roa-replaced", "shrink-to-nothing")),
         theme_nums={"multi": (6, 80), "mix": (6, 60)})
 
 
